@@ -376,4 +376,13 @@ def ResetSpec.run : ResetSpec → DrawSt → Except PyErr (State × DrawSt)
   | .memory sh cs, d => resetMemory sh cs d
   | .memoryRooms sh lh lw ys xs cs nb ne, d => resetMemoryRooms sh lh lw ys xs cs nb ne d
 
+/-- executable form of the hypothesis of the `rooms` theorems on a split vector of a side of length
+`n`: starts at 0, ends at `n - 1`, consecutive entries at least two apart -/
+def gappedB : List Int → Bool
+  | a :: b :: rest => decide (a + 2 ≤ b) && gappedB (b :: rest)
+  | _ => true
+
+def splitsOKb (n : Int) (l : List Int) : Bool :=
+  gappedB l && l.head? == some 0 && l.getLast? == some (n - 1) && decide (2 ≤ l.length)
+
 end GV
